@@ -46,6 +46,8 @@ structure LayerCfg where
   /-- buffer: `MaxRequestBodyBytes`, `MaxResponseBodyBytes`; `0` = no limit (the code tests `<= 0` / `> 0`) -/
   maxReq : Nat := 0
   maxResp : Nat := 0
+  /-- connlimit: `maxConnections` -/
+  limit : Nat := 1
   deriving DecidableEq, Repr, Inhabited
 
 abbrev Header := String × String
@@ -116,10 +118,10 @@ def intervenes (l : LayerCfg) (req : Req) : Bool :=
   | .connlimit | .ratelimit | .cbreaker | .roundrobin | .rebalancer => l.tripped
   | .buffer => decide (0 < l.maxReq) && decide (l.maxReq < req.bodyLen)
 
-/-- The response an intervening layer writes (harness configuration: connlimit max = 1; rate 1/s, burst 1). -/
+/-- The response an intervening layer writes (harness configuration: rate 1/s, burst 1). -/
 def interventionResp (l : LayerCfg) : Resp :=
   match l.kind with
-  | .connlimit => ⟨429, [sniffed], ascii "max connections reached: 1"⟩
+  | .connlimit => ⟨429, [sniffed], ascii ("max connections reached: " ++ toString l.limit)⟩
   | .ratelimit => ⟨429, [sniffed, ("Retry-After", "1"), ("X-Retry-In", "1s")], ascii "max rate reached: retry-in 1s"⟩
   | .cbreaker =>
     match l.fallback with
@@ -174,6 +176,54 @@ def serve : List LayerCfg → (Req → Script) → Req → Caps → Result
 /-- The stack served by `net/http` (outermost layer first). -/
 def serveStack (stack : List LayerCfg) (h : Req → Script) (req : Req) : Result :=
   serve stack h req Caps.real
+
+/-! ### Sequences of requests against one stack instance
+
+The admission state of the two counting layers is made explicit: for a connlimit the number of connections of the source
+currently inside (`connections[token]`), for a ratelimit the tokens left in the source's bucket (frozen clock: no refill).
+`tripped` of these two kinds is then *derived* (`connections >= maxConnections`, no token left).  A handler may end with
+`panic(http.ErrAbortHandler)`: the panic unwinds through every layer (none recovers); the only code that still runs is
+deferred code — `defer cl.release(token, amount)` in `connlimit/connlimit.go:78`.  A consumed rate token is not given back. -/
+
+abbrev SLayer := LayerCfg × Nat
+
+/-- effective configuration of a layer in its current state -/
+def eff (l : LayerCfg) (n : Nat) : LayerCfg :=
+  match l.kind with
+  | .connlimit => { l with tripped := decide (l.limit ≤ n) }
+  | .ratelimit => { l with tripped := decide (n = 0) }
+  | _ => l
+
+def effStack (sl : List SLayer) : List LayerCfg := sl.map fun p => eff p.1 p.2
+
+/-- state change on admission: `acquire` adds the connection, `consumeRates` takes a token -/
+def enter : Kind → Nat → Nat
+  | .connlimit, n => n + 1
+  | .ratelimit, n => n - 1
+  | _, n => n
+
+/-- state change when `next` returns **or panics**: the deferred `release` -/
+def leave : Kind → Nat → Nat
+  | .connlimit, n => n - 1
+  | _, n => n
+
+inductive Outcome where
+  | served (r : Result)
+  /-- the handler panicked with `http.ErrAbortHandler` after `invoked` invocations; the client sees a broken response -/
+  | aborted (invoked : Nat)
+  deriving DecidableEq, Repr
+
+/-- One request through the stack in its current state; `abort`: the handler ends by panicking. -/
+def serveSt : List SLayer → (Req → Script) → Req → Bool → Caps → Outcome × List SLayer
+  | [], h, req, abort, c => (if abort then .aborted 1 else .served (runHandler (h req) c), [])
+  | (l, n) :: ls, h, req, abort, c =>
+    if intervenes (eff l n) req then (.served ⟨interventionResp (eff l n), 0, none, false, false⟩, (l, n) :: ls)
+    else
+      let r := serveSt ls h req abort (wrapCaps l.kind c)
+      (match r.1 with
+        | .served x => .served (post l x)
+        | .aborted k => .aborted k,
+       (l, leave l.kind (enter l.kind n)) :: r.2)
 
 /-! ### canonical output used by the driver -/
 
